@@ -28,7 +28,14 @@ def dest(d):
     return ("10.0.1.%d" % int(d), 7000 + int(d))
 
 
+def empty(i):
+    """every third packet is a datagram of length 0 (a legal datagram; sendto returns 0 for it)"""
+    return i % 3 == 2
+
+
 def payload(i):
+    if empty(i):
+        return b""
     return ("pkt%02d" % i).encode("ascii") + bytes([0x40 + i]) * (i % 3)
 
 
@@ -79,7 +86,19 @@ class GramAdapter:
     # ---- projection
     def _ids(self, pairs, what):
         out = []
+        nempty = {}
         for (b, addr) in pairs:
+            if len(b) == 0:
+                # empty datagrams carry no mark: the k-th empty one offered to / queued for an address is the k-th
+                # empty packet queued for that address (order per destination is what the statement fixes)
+                mine = [j for j in range(1, len(self.dst) + 1) if empty(j) and dest(self.dst[j - 1]) == addr]
+                k = nempty.get(addr, 0)
+                nempty[addr] = k + 1
+                if what == "queued":
+                    sent_before = sum(1 for (bb, aa) in self.sock.dgrams_sent if len(bb) == 0 and aa == addr)
+                    k += sent_before
+                out.append(mine[k] if k < len(mine) else ("unknown empty %s" % what, str(addr)))
+                continue
             i = self.ids.get(bytes(b))
             if i is None:
                 out.append(("unknown %s" % what, tuple(bytes(b))))
@@ -115,7 +134,8 @@ class GramAdapter:
             d = int(args[0])
             self.dst.append(d)
             i = len(self.dst)
-            self.ids[payload(i)] = i
+            if not empty(i):
+                self.ids[payload(i)] = i
             pkt = self.packeting.Packet(stack=st, packed=payload(i))
             if str(args[1]) == "deque" and self.mine:
                 pkt.pack()
